@@ -365,3 +365,67 @@ func CanonNames(info *types.Info, fd *ast.FuncDecl) map[types.Object]string {
 func (im *Impl) canon(fd *ast.FuncDecl, e ast.Expr) string {
 	return norm.Canon(im.info(), e, im.canonNames(fd))
 }
+
+
+// pathLocals tracks, along one enumerated path, what the function's local variables hold, as canonical
+// text: `x := e` / `x = e` binds x to canon(e) (with earlier locals substituted), so that a value that
+// reaches its use through a local reads the same as the value written in place.
+type pathLocals struct {
+	im    *Impl
+	fd    *ast.FuncDecl
+	names map[types.Object]string
+}
+
+func (im *Impl) newPathLocals(fd *ast.FuncDecl) *pathLocals {
+	pl := &pathLocals{im: im, fd: fd, names: map[types.Object]string{}}
+	for o, n := range im.canonNames(fd) {
+		pl.names[o] = n
+	}
+	return pl
+}
+
+func (pl *pathLocals) canon(e ast.Expr) string { return norm.Canon(pl.im.info(), e, pl.names) }
+
+// note records the local assignments of a simple statement; it reports whether the statement was one.
+func (pl *pathLocals) note(st ast.Stmt) bool {
+	as, ok := st.(*ast.AssignStmt)
+	if !ok || len(as.Lhs) != len(as.Rhs) || (as.Tok != token.DEFINE && as.Tok != token.ASSIGN) {
+		if ds, ok := st.(*ast.DeclStmt); ok {
+			if gd, ok := ds.Decl.(*ast.GenDecl); ok && gd.Tok == token.VAR {
+				for _, sp := range gd.Specs {
+					vs := sp.(*ast.ValueSpec)
+					for i, nm := range vs.Names {
+						if o := pl.im.info().Defs[nm]; o != nil && i < len(vs.Values) {
+							pl.names[o] = pl.canon(vs.Values[i])
+						}
+					}
+				}
+				return true
+			}
+		}
+		return false
+	}
+	all := true
+	vals := make([]string, len(as.Rhs))
+	for i, r := range as.Rhs {
+		vals[i] = pl.canon(r)
+	}
+	for i, l := range as.Lhs {
+		id, ok := unparen(l).(*ast.Ident)
+		if !ok {
+			all = false
+			continue
+		}
+		o := pl.im.info().Defs[id]
+		if o == nil {
+			o = pl.im.info().Uses[id]
+		}
+		v, isVar := o.(*types.Var)
+		if !isVar || v.IsField() || v.Parent() == nil || v.Parent() == v.Pkg().Scope() {
+			all = false
+			continue
+		}
+		pl.names[o] = vals[i]
+	}
+	return all
+}
